@@ -568,6 +568,44 @@ func directedCase(i int) *txCase {
 	return k
 }
 
+// code-deposit boundary family, run on every seed: a contract creation with value > 0 whose init code returns N bytes
+// (N in {1,10,100}); the creation is first run with ample gas to measure gasUsed_ok, then re-run from the same
+// pre-state with gas limits in a window around the 200*N code-deposit boundary (init code completes, the deposit
+// cannot be paid: ErrCodeStoreOutOfGas), on every (configuration, height) point of cfgChoices
+var depositNs = []uint64{1, 10, 100}
+
+const depositSteps = 8
+
+func nDeposit() int { return len(cfgChoices()) * len(depositNs) * depositSteps }
+
+func depositCase(c *vh.Ctx, i int) *txCase {
+	ccs := cfgChoices()
+	step := i % depositSteps
+	n := depositNs[(i/depositSteps)%len(depositNs)]
+	cc := ccs[(i/(depositSteps*len(depositNs)))%len(ccs)]
+	k := &txCase{sender: addrA, coinbase: coinbase, cc: cc, price: big.NewInt(2), value: big.NewInt(1000), pool: 8000000}
+	k.sc = scenario{name: fmt.Sprintf("create-code-deposit-%d", n), create: true, code: InitReturningZeros(n), needGas: 200*n + 1000}
+	k.data = k.sc.code
+	k.limit = intrinsicSpec(k.data, true) + k.sc.needGas + 50000
+	_, usedOK, ok := probe(k)
+	if !ok || usedOK <= intrinsicSpec(k.data, true)+200*n {
+		c.Violate("deposit-probe-failed/"+k.sc.name, fmt.Sprintf("the creation with ample gas did not complete as expected (used %d)", usedOK), map[string]interface{}{"cfg": cc.name})
+		usedOK = k.limit
+	}
+	d := 200 * n
+	offs := []uint64{d + 1, d, d - 1, d / 2, 2, 1, 0}
+	if step < len(offs) {
+		k.limit = usedOK - offs[step]
+	} else {
+		k.limit = usedOK + 1
+	}
+	k.fullRun = k.limit >= usedOK
+	k.bal = Add(Mul(U(k.limit), k.price), Big("5000000000000000000"))
+	k.finish(k.cc.cfg.C.IsByzantium(new(big.Int).SetUint64(k.cc.num)))
+	k.class = fmt.Sprintf("deposit:ok%+d:", int64(k.limit)-int64(usedOK)) + k.class
+	return k
+}
+
 // probe runs the case's transaction once at gas price 1 with ample balance and pool and reports the refund applied
 // and the gas used (only used to choose the price of the real case)
 func probe(k *txCase) (refund, used uint64, ok bool) {
@@ -1414,6 +1452,8 @@ func main() {
 		switch part {
 		case "directed":
 			runCase(c, m, directedCase(i))
+		case "deposit":
+			runCase(c, m, depositCase(c, i))
 		case "tx":
 			runCase(c, m, genCase(c))
 		case "block":
@@ -1434,6 +1474,9 @@ func main() {
 	}
 	for i := 0; i < nDirected; i++ {
 		one("directed", i)
+	}
+	for i := 0; i < nDeposit(); i++ {
+		one("deposit", i)
 	}
 	n := c.Scale(2500, 60000)
 	for i := 0; i < n; i++ {
